@@ -207,6 +207,94 @@ def shrink_pipe(case: dict, still_fails) -> dict:
     return cur
 
 
+# ---- family qcap (round 8): Server built with its own `queue_capacity=` (no policy object handed in) ------------------
+# Every other family hands the stage a RecordingPolicy, so the capacity a *constructor argument* gives the built-in
+# FIFO queue was never exercised (C08-r8-2: `capacity=queue_capacity or inf` turned a server without waiting room,
+# queue_capacity=0, into an unbounded one).  Model-free oracles: depth <= capacity after every delivery, a same-instant
+# burst of n into an idle server completes at most min(n, c + q), and offered = completed + dropped at quiescence.
+
+
+def gen_qcap(rng: random.Random, tier: str) -> dict:
+    return {
+        "conc": rng.choice([1, 1, 2, 3]),
+        "qcap": rng.choice([0, 0, 1, 2, 3, 5, None]),
+        "svc_ms": rng.choice([7, 40, 333]),
+        "bursts": [{"at_ms": 1000 * i + rng.choice([0, 0, 13]), "n": rng.choice([1, 2, 3, 5, 8])} for i in range(rng.randint(1, 3))],
+        "spacing_ms": rng.choice([0, 0, 0, 1]),
+    }
+
+
+def run_qcap(case: dict) -> Result:
+    from happysimulator.components.server.server import Server
+    from happysimulator.core.entity import Entity
+    from happysimulator.core.event import Event
+    from happysimulator.core.simulation import Simulation
+    from happysimulator.core.temporal import Instant
+    from happysimulator.distributions.constant import ConstantLatency
+
+    res = Result()
+    got: list = []
+
+    class Sink(Entity):
+        def handle_event(self, event):
+            got.append(event.context.get("metadata", {}).get("tag"))
+            return None
+
+    sink = Sink("sink")
+    c, q = case["conc"], case["qcap"]
+    srv = Server("srv", concurrency=c, service_time=ConstantLatency(case["svc_ms"] / 1000.0), queue_capacity=q, downstream=sink)
+    # bursts are 1 s apart and a burst drains in at most 8 * 0.333 s / 1 ... keep them apart: the server is idle before each
+    sim = Simulation(entities=[srv, sink], end_time=Instant.from_seconds(60.0))
+    tag = 0
+    offered = 0
+    expect_completed = 0
+    t_cursor_ms = 0
+    for b in case["bursts"]:
+        t_cursor_ms = max(t_cursor_ms, b["at_ms"])
+        for i in range(b["n"]):
+            t = t_cursor_ms + i * case["spacing_ms"]
+            sim.schedule(Event(time=Instant.from_seconds(t / 1000.0), event_type="req", target=srv, context={"metadata": {"tag": tag}}))
+            tag += 1
+        offered += b["n"]
+        if case["spacing_ms"] == 0 or case["svc_ms"] >= 8:
+            # nothing completes while the burst arrives: exactly the first c are served at once, q wait, the rest drop
+            expect_completed += min(b["n"], c + (q if q is not None else b["n"]))
+        else:
+            expect_completed = None
+        t_cursor_ms += 8 * case["svc_ms"] + 9 * 1000  # next burst only after this one has drained for sure
+    worst = [0]
+
+    def after(_ev):
+        d = srv.depth
+        res.count("depth_samples")
+        if d > worst[0]:
+            worst[0] = d
+
+    sim.control.on_event(after)
+    sim.run()
+    res.count("events_monitored", offered)
+    res.count("qcap_cases")
+    res.seen("qcap_values", str(q))
+    w = {"case": case}
+    if q is not None and worst[0] > q:
+        res.add("capacity", "Server", "wait-queue-above-constructor-capacity", f"queue depth reached {worst[0]} with queue_capacity={q}", w)
+    completed = srv.stats.requests_completed
+    dropped = srv.stats_dropped
+    if len(set(got)) != len(got):
+        res.add("duplicate", "Server", "constructor-capacity", f"a request reached the downstream twice: {sorted(got)}", w)
+    if completed != len(got):
+        res.add("accounting", "Server", "constructor-capacity", f"requests_completed={completed} but downstream received {len(got)}", w)
+    if completed + dropped != offered or srv.depth or srv.active_requests:
+        res.add("conservation", "Server", "constructor-capacity", f"offered={offered} completed={completed} dropped={dropped} depth={srv.depth} active={srv.active_requests} at quiescence", w)
+    # upper bound only: the waiting room also holds, for the rest of the instant, the request the driver is about to
+    # start, so fewer than c + q of a same-instant burst may get in (an exact count was tried first and was a false
+    # alarm of this harness: see DESIGN section 8)
+    if expect_completed is not None and completed > expect_completed:
+        res.add("admission", "Server", "constructor-capacity-burst", f"bursts into an idle server with concurrency={c} queue_capacity={q}: completed={completed}, more than the {expect_completed} that concurrency + waiting room can take", w)
+    res.nontrivial = any(b["n"] > c + (q if q is not None else 99) for b in case["bursts"])
+    return res
+
+
 FAMILIES = {
     "policy": Family("policy", gen_policy, run_policy, shrink=shrink_policy, case_timeout=60.0),
     "qr": Family("qr", _gen_pipe(("server", "server", "threadpool", "userqr", "rawqueue")), run_pipe, shrink=shrink_pipe, case_timeout=60.0),
@@ -224,11 +312,12 @@ FAMILIES = {
         shrink=shrink_pipe,
         case_timeout=60.0,
     ),
+    "qcap": Family("qcap", gen_qcap, run_qcap, case_timeout=30.0),
 }
 
 BUDGET = {
-    "quick": {"policy": 6000, "qr": 3000, "industrial": 3000, "topology": 1500},
-    "thorough": {"policy": 300000, "qr": 200000, "industrial": 200000, "topology": 100000},
+    "quick": {"policy": 6000, "qr": 3000, "industrial": 3000, "topology": 1500, "qcap": 400},
+    "thorough": {"policy": 300000, "qr": 200000, "industrial": 200000, "topology": 100000, "qcap": 20000},
 }
 
 # Interpreter start-up (importing happysimulator, 2-4 s) dominates the cost of a shard, a case takes
